@@ -166,6 +166,45 @@ Theorem C17_asyncssh_user_if_any_refuted :
 Proof. exact asyncssh_user_if_any_refuted. Qed.
 Print Assumptions C17_asyncssh_user_if_any_refuted.
 
+(* Several asyncssh objects in one process, the dict the user passed as transport_options["asyncssh"] possibly ONE
+   object held by several of them (an address in a heap of user dicts): over ANY order of opens and re-opens the
+   user's dicts are afterwards what they were, and the connect calls are, open by open, a function of the opened
+   object's own record and of its dict as the user wrote it ... *)
+Theorem C17_asyncssh_history_per_object :
+  forall objs hp opens, as_run as_open objs hp opens = (hp, flat_map (as_dial objs hp) opens).
+Proof. exact as_hist_spec. Qed.
+Print Assumptions C17_asyncssh_history_per_object.
+
+(* ... so every connect call of object i carries object i's own host / port / username (a user dict that sets
+   none of the three), whatever the library would take for an absent keyword, whoever shares the dict ... *)
+Theorem C17_asyncssh_history_reported :
+  forall objs hp opens i k,
+    In (i, k) (snd (as_run as_open objs hp opens)) ->
+    exists o u, nth_error objs i = Some o /\ nth_error hp (ao_d o) = Some u /\ k = own_kwargs o u /\
+      (kw_free u -> forall l, lib_resolve l k = (b_host (ao_b o), b_port (ao_b o), p_user (ao_p o))).
+Proof. exact as_hist_reported. Qed.
+Print Assumptions C17_asyncssh_history_reported.
+
+(* ... and the aliasing is invisible: devices given ONE dict connect exactly as devices given each its own copy *)
+Theorem C17_asyncssh_shared_dict_eq_copies :
+  forall devs u opens,
+    snd (as_run as_open (devs_shared devs) [u] opens) =
+    snd (as_run as_open (devs_copied_from 0 devs) (map (fun _ => u) devs) opens).
+Proof. exact as_shared_eq_copies. Qed.
+Print Assumptions C17_asyncssh_shared_dict_eq_copies.
+
+(* read-only use of the user's dict is necessary: a transport that setdefault()s its arguments into it makes the
+   second of two devices sharing one dict connect with the first one's host / port / username, and changes the dict *)
+Theorem C17_asyncssh_shared_dict_setdefault_refuted :
+  exists objs hp opens i j oi oj k,
+    nth_error objs i = Some oi /\ nth_error objs j = Some oj /\ i <> j /\ shares_dict oi oj /\
+    Forall kw_free hp /\
+    In (j, k) (snd (as_run as_open_setdefault objs hp opens)) /\
+    (forall l, lib_resolve l k <> (b_host (ao_b oj), b_port (ao_b oj), p_user (ao_p oj))) /\
+    fst (as_run as_open_setdefault objs hp opens) <> hp.
+Proof. exact as_setdefault_shared_refuted. Qed.
+Print Assumptions C17_asyncssh_shared_dict_setdefault_refuted.
+
 (* the pinned commit violates every part (the baseline findings, as theorems about [resolve false]) *)
 Theorem C17_pinned_port_not_dialled :
   exists e a r b p, resolve false e a = Built r b p /\ b_port b <> r_port r.
